@@ -111,6 +111,57 @@ class ArmCoverage:
                 "unhit": [f"{os.path.relpath(f, self.root)}:{ln}" for f, ln in unhit][:60]}
 
 
+_SITE_CACHE: dict = {}
+
+
+def call_sites_executed(p, findings):
+    """Ids of the open findings whose CALL SITE (the body of the `case` arm named by the finding's call_site_markers) executes
+    during optimize(p).  Used only to attribute a failing input that the model cannot explain (the implementation took another
+    path than the model, e.g. after an unrelated new rule): the defect is identified by its call site.  A refactor that removes
+    the marker text simply disables the attribution (the failing input is then reported)."""
+    import predicate
+
+    root = os.path.dirname(os.path.abspath(predicate.__file__))
+    arms = {}  # (file, first body line, last body line) -> finding id
+    for f in findings:
+        for fname, marker in f.get("call_site_markers", []):
+            path = os.path.join(root, "optimizer", fname)
+            if path not in _SITE_CACHE:
+                try:
+                    _SITE_CACHE[path] = open(path, encoding="utf-8").read().split("\n")
+                except OSError:
+                    _SITE_CACHE[path] = []
+            lines = _SITE_CACHE[path]
+            for i, ln in enumerate(lines):
+                if ln.strip().startswith("case ") and marker in ln:
+                    ind = len(ln) - len(ln.lstrip())
+                    j = i + 1
+                    while j < len(lines) and (not lines[j].strip() or len(lines[j]) - len(lines[j].lstrip()) > ind):
+                        j += 1
+                    arms[(path, i + 2, j)] = f["id"]  # 1-based body lines i+2 .. j
+    if not arms or sys.gettrace() is not None:
+        return set()
+    files = {a[0] for a in arms}
+    hit = set()
+
+    def local(frame, event, arg):
+        if event == "line":
+            hit.add((frame.f_code.co_filename, frame.f_lineno))
+        return local
+
+    def tracer(frame, event, arg):
+        return local if frame.f_code.co_filename in files else None
+
+    sys.settrace(tracer)
+    try:
+        optimize(p)
+    except Exception:  # noqa: BLE001
+        pass
+    finally:
+        sys.settrace(None)
+    return {fid for (path, lo, hi), fid in arms.items() if any(fl == path and lo <= n <= hi for fl, n in hit)}
+
+
 TWIN_LIMIT = 1500  # cases per stream re-run over string twins of their constants (0 = off)
 
 
@@ -189,7 +240,7 @@ def snapshot(p):
 _HISTORY_DONE = False
 
 
-def raising_history(n=160):
+def raising_history(n=700):
     """A prelude of optimize() calls that RAISE and are caught by the caller (a function atom that rejects the constant of
     `fn & eq`, bounds of incomparable types): afterwards the optimizer must behave as in a fresh process -- nothing may be
     left behind by an exception (a depth counter, a half-filled cache, a lock)."""
@@ -403,6 +454,11 @@ def run(chk, name, cases, cfg, differs, share=False, restore_vars=True):
                     except Exception:  # noqa: BLE001
                         pass
                 w = {k: v for k, v in w.items() if not k.startswith("_")}
+                if expl is None and "what" not in w and not agree:
+                    sites = call_sites_executed(lift.lower(s, {} if share else None), open_findings(chk.pid))
+                    if sites:
+                        expl = sorted(sites)[0]
+                        w["attributed_by_call_site"] = sorted(sites)
                 chk.add_failure(stext, {"optimized": ptxt, **w, "model_trace": tr}, expl)
         elif ptxt.startswith("RAISED") or ptxt.startswith("UNLIFTABLE") or ptxt.startswith("MUTATED"):
             # optimize did not return a predicate: that is a failure of C12/C01 in itself
